@@ -671,6 +671,88 @@ func c08Families(tier string) []explore.Family {
 		r.Class("vocabulary-name")
 	}})
 
+	// (S) strict-variables mode reports an object's final value exactly when that value is nil. Empty is not nil:
+	// an unset (nil) Go map is the empty map, a nil slice the empty array, "" / false / 0 are values. Every such
+	// value is reached directly, as a map entry, an array item, a struct field, through a pointer and a Drop.
+	type strictHolder struct {
+		M  map[string]any
+		MI map[string]int
+		L  []any
+		LS []string
+		P  *int
+		PS *strictHolder
+		E  string
+		Z  int
+		F  bool
+		I  any
+	}
+	type sval struct {
+		name  string
+		build func() any
+		isNil bool
+	}
+	zero := 0
+	svals := []sval{
+		{"untyped-nil", func() any { return nil }, true}, {"nil-map", func() any { return map[string]any(nil) }, false}, {"nil-typed-map", func() any { return map[string]int(nil) }, false},
+		{"nil-map-any-keys", func() any { return map[any]any(nil) }, false}, {"empty-map", func() any { return map[string]any{} }, false},
+		{"nil-slice", func() any { return []any(nil) }, false}, {"nil-string-slice", func() any { return []string(nil) }, false}, {"empty-slice", func() any { return []any{} }, false},
+		{"empty-string", func() any { return "" }, false}, {"false", func() any { return false }, false}, {"zero", func() any { return 0 }, false},
+		{"nil-int-pointer", func() any { return (*int)(nil) }, true}, {"nil-struct-pointer", func() any { return (*strictHolder)(nil) }, true},
+		{"pointer-to-zero", func() any { return &zero }, false}, {"pointer-to-nil-map", func() any { var m map[string]any; return &m }, false},
+		{"drop-yielding-nil", func() any { return univ.Drop{V: nil} }, true}, {"drop-yielding-nil-map", func() any { return univ.Drop{V: map[string]any(nil)} }, false},
+		{"drop-yielding-empty-string", func() any { return univ.Drop{V: ""} }, false}, {"empty-bytes", func() any { return []byte{} }, false}, {"nil-bytes", func() any { return []byte(nil) }, false},
+	}
+	sroutes := []struct {
+		name, src string
+		bind      func(v any) map[string]any
+	}{
+		{"direct", "{{ v }}", func(v any) map[string]any { return map[string]any{"v": v} }},
+		{"map-entry", "{{ m.k }}", func(v any) map[string]any { return map[string]any{"m": map[string]any{"k": v}} }},
+		{"array-item", "{{ l[1] }}", func(v any) map[string]any { return map[string]any{"l": []any{1, v}} }},
+		{"via-assign", "{% assign z = v %}{{ z }}", func(v any) map[string]any { return map[string]any{"v": v} }},
+		{"through-drop", "{{ d.k }}", func(v any) map[string]any { return map[string]any{"d": univ.Drop{V: map[string]any{"k": v}}} }},
+		{"interface-field", "{{ h.I }}", func(v any) map[string]any { return map[string]any{"h": strictHolder{I: v}} }},
+		{"interface-field-through-pointer", "{{ h.I }}", func(v any) map[string]any { return map[string]any{"h": &strictHolder{I: v}} }},
+	}
+	sfields := []struct {
+		field string
+		isNil bool
+	}{{"M", false}, {"MI", false}, {"L", false}, {"LS", false}, {"P", true}, {"PS", true}, {"E", false}, {"Z", false}, {"F", false}, {"I", true}, {"M.size", false}, {"L.size", false}, {"L.first", true}, {"M.k", true}}
+	fams = append(fams, explore.Family{Name: "strict-mode-final-values-empty-or-nil", Count: int64(len(svals)*len(sroutes) + len(sfields)*2), Run: func(i int64, r *explore.Rec) {
+		var src, what string
+		var bind map[string]any
+		var isNil bool
+		if int(i) < len(svals)*len(sroutes) {
+			v, rt := svals[int(i)/len(sroutes)], sroutes[int(i)%len(sroutes)]
+			src, bind, isNil, what = rt.src, rt.bind(v.build()), v.isNil, v.name+" reached "+rt.name
+		} else {
+			j := int(i) - len(svals)*len(sroutes)
+			f, ptr := sfields[j/2], j%2 == 1
+			src, isNil, what = "{{ h."+f.field+" }}", f.isNil, "zero-valued struct field "+f.field
+			bind = map[string]any{"h": strictHolder{}}
+			if ptr {
+				bind["h"], what = &strictHolder{}, what+" through a pointer"
+			}
+		}
+		r.Eval()
+		r.Transition()
+		r.Trace()
+		od, os := Render(c08.eng, src, bind), Render(c08.strict, src, bind)
+		desc := map[string]any{"template": src, "value": what}
+		r.Class(fmt.Sprintf("strict-final/%v/%s", isNil, os.Class()))
+		r.State("strict-final")
+		switch {
+		case od.Panic != nil || od.Err != nil || os.Panic != nil:
+			r.Violation("lookup-fails:strict-final-value", desc, "a value", od.String()+" / strict: "+os.String())
+		case isNil && od.Out != "":
+			r.Violation("wrong-value:nil-final-value", desc, `""`, od.String())
+		case isNil && os.Err == nil:
+			r.Violation("strict-nil-not-error:final-value", desc, "an error (the final value is nil)", os.String())
+		case !isNil && (os.Err != nil || os.Out != od.Out):
+			r.Violation("strict-error-for-a-value-that-is-not-nil", desc, "as without strict variables: "+od.String(), os.String())
+		}
+	}})
+
 	// (E4) filters belong to the engine they were registered on: two engines register DIFFERENT functions under
 	// the same names (and one name on one engine only); the same sources are parsed and rendered on both, in
 	// both orders, in one process - whatever is remembered between parses must not cross engines.
